@@ -120,6 +120,36 @@ func (h *decHooks) Call(in *sym.Interp, fr *sym.Frame, site ssa.CallInstruction,
 			in.Emit(fr, "print", site, "printer", args[1:], frMem(fr))
 			return true, nil
 		}
+		// a call through a value that is, on every path, one of the operand decoders (the palette's per-format
+		// colour decoder): one operand read whose decoder is the selection
+		if !cc.IsInvoke() && len(args) >= 1 && args[0].Op == "ite" {
+			leaves := sym.DeepCases(args[0], 16)
+			var names []string
+			var sig *types.Signature
+			for _, lf := range leaves {
+				if lf.Val.Op != "fn" || lf.Val.Fn == nil {
+					names = nil
+					break
+				}
+				name := h.decoderName(lf.Val.Fn)
+				if name == "" || h.enter[name] {
+					names = nil
+					break
+				}
+				names = append(names, name)
+				sig = lf.Val.Fn.Signature
+			}
+			if len(names) > 0 && sig != nil && sig.Results().Len() == 2 {
+				id := fmt.Sprintf("%s#%d", fr.ID, ordinal(site))
+				val := sym.Atom("val@"+id, sig.Results().At(0).Type())
+				n := sym.Atom("n@"+id, sig.Results().At(1).Type())
+				ev := in.Emit(fr, "consume", site, strings.Join(names, "|"), args[1:], nil)
+				if ev != nil {
+					ev.Result = sym.Tuple(val, n)
+				}
+				return true, sym.Tuple(val, n)
+			}
+		}
 		return false, nil
 	}
 	if name := h.decoderName(callee); name != "" && !h.enter[name] {
